@@ -25,6 +25,10 @@
 (* <= rho2_0, monotone, rho2_m = 0 <=> m >= KDim, the first-order          *)
 (* optimality certificate, and - independently of the determinant ratio -  *)
 (* ||b - A x_m||^2 = rho2_m evaluated on the exported iterate.             *)
+(*                                                                         *)
+(* Cases with hom = TRUE are replayed with scaled right-hand sides and     *)
+(* tiny initial residuals; ScaleShift checks on them that the optimum is   *)
+(* homogeneous in the initial residual and invariant under the shift x0.   *)
 (***************************************************************************)
 EXTENDS LeastSquares, GmresCatalog, Json, TLC
 
@@ -129,6 +133,19 @@ RankTestsAgree ==
        LET K == Krylov(Case.A, R0, j) IN
        (~MIsZero(R0) /\ EntriesWithin(K, IF j <= 2 THEN 30 ELSE 6))
           => (FullColRank(K) <=> (GramDet(K) # CZ))
+
+\* Homogeneity and shift invariance (cases flagged hom; the harness replays them with right-hand sides scaled down to
+\* 1e-30 and with tiny initial residuals b - A x0): the optimum of (A, HC * r0, x0 = 0) is HC * (x_m - x0) with
+\* rho2 multiplied by HC^2, on the same Krylov prefix.  Hence for every scalar c: x_m(A, A x0 + c r0, x0) = x0 +
+\* c (x_m - x0) and rho_m / ||r0|| does not depend on c.
+HC == -3
+ScaleShift ==
+    (~Wide /\ Case.hom) =>
+      LET oo == Opt(m)
+          z == GmresOpt(Case.A, MScale(QInt(HC), R0), Zero(N, 1), m)
+      IN /\ MEq(z.x, MScale(QInt(HC), MSub(oo.x, Case.x0)))
+         /\ z.rho2 = QNorm([n |-> <<HC * HC * oo.rho2.n[1], 0>>, d |-> oo.rho2.d])
+         /\ z.j = oo.j
 
 Out ==
     LET oo == Opt(m)
